@@ -555,14 +555,26 @@ def generate(prop, seed, tier="quick", fault_free=False):
             nm = {k: g.fresh("stage") for k in ("x", "x2", "x3")}
             nm["s"] = g.fresh("helper")
             ops.append({"op": "serve_bad", "q": w.choice(BAD_QUERIES).format(**nm)})
+    config = {"naming": naming, "binder_reuse": reuse, "data": gen_data(st.get("data")),
+              # a back end may keep one transformer object and feed it query after query
+              "reuse_instance": (not fault_free) and c.random() < 0.3,
+              # Python's default recursion limit, or the roomier one of the harness
+              "recursion_limit": 3000 if fault_free else c.choice([1000, 3000])}
+    # fault kinds added later draw from their own PRNG sub-stream: the cases of runs that do not
+    # enable them are exactly what they were before
+    x = st.get("faults2")
+    if not fault_free:
+        # object lifetime: queries die after they were served; inside the package `id()` hands
+        # the numbers of dead objects to new ones (sim/simid.py)
+        config["lifetime"] = x.random() < 0.5
+        if x.random() < 0.5 and not config["reuse_instance"]:
+            # crash points: an asynchronous exception lands at the k-th line of a rewrite (a
+            # fresh transformer object per query: whatever is left behind is module state)
+            ops = [({**op, "crash": [int(2 ** x.uniform(0, 10)), x.choice(["keyboard", "memory", "abort"])]}
+                    if op["op"] == "serve" and "stack" not in op and x.random() < 0.15 else op)
+                   for op in ops]
     return {"property": prop, "engine": "simplifier_node", "engine_version": ENGINE_VERSION,
-            "seed": seed, "sched_seed": 0,
-            "config": {"naming": naming, "binder_reuse": reuse, "data": gen_data(st.get("data")),
-                       # a back end may keep one transformer object and feed it query after query
-                       "reuse_instance": (not fault_free) and c.random() < 0.3,
-                       # Python's default recursion limit, or the roomier one of the harness
-                       "recursion_limit": 3000 if fault_free else c.choice([1000, 3000])},
-            "ops": ops}
+            "seed": seed, "sched_seed": 0, "config": config, "ops": ops}
 
 
 # ---------------------------------------------------------------------------------------------
@@ -680,7 +692,7 @@ class Node:
             r = self.refs_cache[text] = [ev(a, d) for d in self.data]
         return r
 
-    def serve(self, text, refs, origin, root, stack=None, deep=False):
+    def serve(self, text, refs, origin, root, stack=None, deep=False, crash=None):
         """Simplify `text` under the node's current history and compare with `refs` (the
         outcomes of the query this text stands for)."""
         a = parse_query(text)
@@ -691,6 +703,23 @@ class Node:
             if self.restarted_since_argn_made:
                 self.stat("probe_restart_with_argN_alive")
         window = small_stack(stack) if stack else None
+        if crash and not self.case["config"].get("reuse_instance"):
+            from .core import crash_at, crash_exception
+
+            cp = crash_at(crash[0], crash_exception(crash[1], "in a rewrite"))
+            self.stat("fault_crash_point_armed")
+            try:
+                with cp:
+                    simplify(self.mod, a, copy_input=True)
+            except BaseException as ex:
+                if ex is cp.exc:
+                    self.stat("fault_crash_point_fired")
+                    self.events.append(f"serve|{origin}|crashed")
+                    return None
+                if not isinstance(ex, Exception):
+                    raise
+            # not reached (or the rewrite failed on its own): serve the query normally
+            a = parse_query(text)
         try:
             if window is not None:
                 window.__enter__()
@@ -772,7 +801,7 @@ class Node:
                                "extend": "probe_extended_output_served"}.get(
                         op.get("was"), "probe_same_text_two_histories"))
                 rec = self.serve(op["q"], self.refs_for(root), op.get("was", "submit"), root,
-                                 stack=op.get("stack"))
+                                 stack=op.get("stack"), crash=op.get("crash"))
                 if rec:
                     self.served.append(rec)
             elif k == "reserve":
@@ -902,10 +931,21 @@ def run_epoch(case, ops, state):
     sys.setrecursionlimit(case["config"].get("recursion_limit", 3000))
     n = Node(case, state)
     viol = None
+    sid = None
+    if case["config"].get("lifetime"):
+        from .simid import SimId
+
+        sid = SimId(Streams(mix(case.get("seed", 0), "simid", len(n.events))).get("simid"))
+        sid.install()
     try:
         n.run(ops)
     except Violation as v:
         viol = {"class": v.cls, "detail": v.detail}
+    finally:
+        if sid is not None:
+            sid.uninstall()
+            if sid.reused:
+                n.stat("fault_lifetime_id_reused", sid.reused)
     return {"stats": n.stats, "served": n.served, "events": n.events, "resolved": n.resolved,
             "restarted": n.restarted_since_argn_made, "violation": viol}
 
